@@ -340,7 +340,11 @@ def pairs():
         await b.probe('Tracked.set', lambda: t.set(2))
 
     for symbol, op in (('+', lambda t: t + 1), ('-', lambda t: t - 1), ('*', lambda t: t * 2),
-                       ('//', lambda t: t // 2), ('**', lambda t: t ** 2), ('%', lambda t: t % 2)):
+                       ('//', lambda t: t // 2), ('**', lambda t: t ** 2), ('%', lambda t: t % 2),
+                       ('/', lambda t: t / 2), ('<<', lambda t: t << 1), ('>>', lambda t: t >> 1),
+                       ('&', lambda t: t & 4), ('|', lambda t: t | 2), ('^', lambda t: t ^ 1),
+                       ('pow mod', lambda t: pow(t, 2, 7)), ('+ 0', lambda t: t + 0),
+                       ('* 1', lambda t: t * 1), ('pow mod same', lambda t: pow(t, 1, 7))):
         def make(symbol=symbol, op=op):
             async def case(b):
                 t = Tracked(5)
